@@ -52,7 +52,11 @@ pub fn c01(plan: &Plan, h: &BHistory, out: &mut Vec<Violation>) {
     }
     let ats = attempts(evs);
     let parse_errors = evs.iter().filter(|e| matches!(e.k, K::ParseError(_))).count();
-    let final_failure = ats.iter().any(|a| a.failed(evs) && a.left() == 0);
+    // "failed finally": a failed attempt that is the scenario's last one - it has no retry left, or
+    // (whatever its counter says) no further attempt of that scenario followed
+    let final_failure = ats.iter().any(|a| {
+        a.failed(evs) && (a.left() == 0 || !ats.iter().any(|b| b.scenario == a.scenario && b.current() == a.current() + 1))
+    });
     let fos = fos_kind(&h.stack);
     let fos_failure = fos > 0
         && ats.iter().any(|a| {
